@@ -372,7 +372,15 @@ func c14SaveStorm(rep *verifkit.Report, in *sysInst, ls *sysListServer, rng *ran
 		for li := 0; li < 2; li++ {
 			path := fmt.Sprintf("/c14-%d.txt", li)
 			size := []int{0, 5, 300, bigList / 20, bigList}[(r+li)%5]
-			ls.Set(path, c14FilterContent(r*10+li, size))
+			content := c14FilterContent(r*10+li, size)
+			if r > 0 && r%3 == 2 && li == 0 && len(content) > 200 {
+				// A transfer that breaks in the middle of the body: the old
+				// complete version must stay in place.
+				ls.SetCut(path, content, 100+rng.Intn(len(content)-150))
+				rep.Class("cut_transfers_offered")
+			} else {
+				ls.Set(path, content)
+			}
 			if r == 0 {
 				if st, _, err := in.API("POST", "/control/filtering/add_url", map[string]any{"name": "c14", "url": ls.URL(path), "whitelist": li == 1}); ok(st, err) {
 					filterSaves++
